@@ -17,7 +17,7 @@ import (
 	"gonum.org/v1/gonum/blas/gonum"
 	"gonum.org/v1/gonum/floats"
 
-	"verif/harness/internal/core"
+	"gonum.org/v1/gonum/verifharness/internal/core"
 )
 
 // special-value codes of SlicePrims.tla
